@@ -274,6 +274,11 @@ func registerRules(c *core.Ctx, r *core.Report, rule string) {
 				}
 				t.invokeN["Panicf"] = func(ip *absint.Interp, a []absint.Value) absint.Value {
 					panicked = true
+					// the logger's Panicf panics only when the log level lets panic messages through (it returns
+					// silently at level fatal): the duplicate must be left out in both cases
+					if ip.Choose(2, "log level lets Panicf panic") == 1 {
+						return nil
+					}
 					panic(&absint.GoPanic{Msg: "Panicf"})
 				}
 				t.invokeN["Panic"] = t.invokeN["Panicf"]
@@ -305,7 +310,7 @@ func registerRules(c *core.Ctx, r *core.Report, rule string) {
 			}
 		}
 		smallModelCheck(c, r, rule, "register@"+core.FnName(reg), reg, 1)
-		r.Check(bad == "", rule, "register@"+core.FnName(reg), c.FnPos(reg), fmt.Sprintf("RegisterSingleton stores under the component's name only on a miss, ignores re-registration of the same object and panics without storing for a different one (%d abstract runs) %s", runs, bad))
+		r.Check(bad == "", rule, "register@"+core.FnName(reg), c.FnPos(reg), fmt.Sprintf("RegisterSingleton stores under the component's name only on a miss, ignores re-registration of the same object and reports a different one through Panicf without storing it - whether Panicf panics or, at log level fatal, returns (%d abstract runs) %s", runs, bad))
 	}
 }
 
